@@ -393,6 +393,13 @@ func genShadowK(r *rand.Rand, regOnly bool, retShadow bool) cpuCase {
 		}
 		// the shadow: never executed architecturally
 		sh := 1 + r.Intn(4)
+		if slow && !regOnly && !retShadow && r.Intn(4) == 0 {
+			// a long-latency wrong-path instruction FOLLOWED by a wrong-path jump elsewhere: the jump proposes a flush
+			// while the older branch is still unresolved and the wrong-path load is still in flight
+			g.emit("lw %s, %d(%s)", g.reg(), r.Intn(48)*4, g.breg())
+			g.emit("j %s", far)
+			sh = r.Intn(2)
+		}
 		for i := 0; i < sh; i++ {
 			pick := r.Intn(11)
 			if regOnly {
